@@ -680,7 +680,9 @@ ElemNumber::getPreviousNode(
             {
                 next = pos->getParentNode();
 
-                if(0 != next &&
+                // An attribute or namespace node has no parent node
+                // here, so next can be null.
+                if(0 == next ||
                    next->getNodeType() == XalanNode::DOCUMENT_NODE ||
                    (0 != fromMatchPattern &&
                         fromMatchPattern->getMatchScore(
